@@ -217,13 +217,28 @@ def bad_bytes(run, maxbytes):
                           {'kind': 'bytes_case', 'bytes': t['bytes'], 'policy': t['policy'], 'schedule': t['schedule']})
 
 
+def writer_chain_proof(run):
+    """The writer protocol for ANY number of records: RbqlEngine refines WriterChain (TLC, PROPERTY ChainRefinement in every engine run of
+    this check) and WriterChain's IndInv (which implies ~m.bad) is an inductive invariant (Apalache, unbounded m.writes)."""
+    results = {}
+    results['initiation: WInit => IndInv'] = tlcrun.run_apalache('WriterChainInd', 'WInit', 'WNext', 'IndInv', 0)
+    results['consecution: IndInv /\\ WNext => IndInv\''] = tlcrun.run_apalache('WriterChainInd', 'IndInit', 'WNext', 'IndInv', 1)
+    results['mutant (a leaf write that ignores the stop flag) breaks consecution'] = tlcrun.run_apalache('WriterChainMut', 'IndInit', 'MutNext', 'IndInv', 1)
+    want = ['NoError', 'NoError', 'Error']
+    if list(results.values()) != want:
+        core.machinery_failure('WriterChain inductive argument: %s' % json.dumps(results))
+    run.notes['apalache_writer_chain'] = results
+
+
 def check(run):
     quick = run.tier == 'quick'
     run.rule = ('(a) case = (query shape of Q_C15, table, break point k in 0..|T|+2) from TLC, replayed with a writer returning False at call k; (b) the same shapes through the real CSVWriter over '
                 'a stream raising BrokenPipeError at every stream.write index; (c) every byte string up to the bound over {a, LF, comma, pieces of 2/3/4-byte sequences, 0xFF, surrogate lead} under '
                 'every partition x chunk sizes {1,3,1024} x {quoted, simple}, judged by TLC (BadByteTrace); (d) query_csv file handles: harness/frontends (C13 machinery); '
+                '(e) the engine refines the protocol abstraction WriterChain (TLC, every engine run) whose inductive invariant Apalache checks for any number of records; '
                 'non-trivial = >= 2 input records and output / >= 3 fault runs / byte string with a non-ASCII byte')
     run.assumptions = ['a broken pipe is represented by a stream raising BrokenPipeError (no OS pipe)']
+    writer_chain_proof(run)
     ec.spec_mutant(run, 'Q_C15', 'R_2x2', 'no_stop_on_false', maxA=2, breakpoints=(0, 1, 2))
     ec.run_family(run, 'C15-breakpoints', 'Q_C15', 'R_2x2', recsB='R_2x2', maxA=2, maxB=2, breakpoints=tuple(range(0, 5 if quick else 7)), hdrmodes=(False, True))
     if not quick:
